@@ -196,7 +196,7 @@ def step_strategy(focus=None):
 def histories(draw, max_steps):
     focus = draw(st.sampled_from([None, None, "grp_a", "grp_a", "viz", "grp_b"]))
     steps = draw(st.lists(step_strategy(focus), min_size=5 if focus else 1, max_size=max_steps))
-    return {"kind": "history", "steps": steps}
+    return {"kind": "history", "steps": steps, "mapping_kind": draw(st.sampled_from([0, 0, 0, 1, 2, 3, 4]))}
 
 
 DEEP = [(("grp_a",), ("grp_a", "sub", "p")), (("grp_a",), ("grp_a", "sub", "q_r")), (("viz",), ("viz", "colors", "set")), (("grp_a", "sub"), ("grp_a", "sub", "p"))]
@@ -226,12 +226,32 @@ def transition_histories(draw):
     steps += noise()
     steps.append({"op": "refresh"})
     steps += noise()
-    return {"kind": "history", "steps": steps}
+    return {"kind": "history", "steps": steps, "mapping_kind": draw(st.sampled_from([0, 0, 1, 2, 3, 4]))}
 
 
 # ------------------------------------------------------------------------------------------------
 # reference model
 # ------------------------------------------------------------------------------------------------
+def as_mapping(d, kind, top_only=False):
+    """The API takes Mappings, not only dicts: hand nested sections over as MappingProxyType / UserDict /
+    ChainMap / OrderedDict (kind 1..4; 0 = plain dict)."""
+    import collections
+    import types
+
+    if not isinstance(d, dict):
+        return d
+    inner = d if top_only else {k: as_mapping(v, kind) for k, v in d.items()}
+    if kind == 1:
+        return types.MappingProxyType(inner)
+    if kind == 2:
+        return collections.UserDict(inner)
+    if kind == 3:
+        return collections.ChainMap(inner)
+    if kind == 4:
+        return collections.OrderedDict(inner)
+    return inner
+
+
 class Model:
     """cur / defaults hold nested dicts with NORMALISED keys; value semantics (deep copies)."""
 
@@ -305,6 +325,7 @@ class Harness:
         self.pristine_cur = copy.deepcopy(qc.config)
         self.model = Model(self.pristine_cur, [copy.deepcopy(d) for d in qc.defaults])
         self.flags = {"set_paths": set(), "defaults_after_set": False, "refresh_after": False, "with": False}
+        self.case_wrap = int(case.get("mapping_kind", 0)) if isinstance(case, dict) else 0
 
     def close(self):
         qc = self.qc
@@ -354,12 +375,15 @@ class Harness:
                 self.ctx.exclude("set_below_none_or_scalar")
         return plan
 
-    def _real_set(self, plan):
+    def _real_set(self, plan, wrap=0):
         qc = self.qc
         mapping, kwargs = {}, {}
         for sp, val, to_kw in plan:
             (kwargs if to_kw else mapping)["__".join(sp) if to_kw else ".".join(sp)] = copy.deepcopy(val)
-        return qc.set(mapping if (mapping or not kwargs) else None, **kwargs), mapping, kwargs
+        arg = mapping if (mapping or not kwargs) else None
+        if arg is not None and wrap:
+            arg = as_mapping(arg, wrap, top_only=True)  # the top-level argument is documented as a Mapping
+        return qc.set(arg, **kwargs), mapping, kwargs
 
     def _model_set(self, plan):
         for sp, val, _to_kw in plan:
@@ -374,7 +398,7 @@ class Harness:
             items = self._applicable(step["items"], step["form"])
             if items:
                 with ctx.sut(case, "config.set"):
-                    self._real_set(items)
+                    self._real_set(items, wrap=self.case_wrap)
                 self._model_set(items)
         elif op == "refresh":
             with ctx.sut(case, "config.refresh"):
@@ -396,7 +420,13 @@ class Harness:
         ctx, case, qc = self.ctx, self.case, self.qc
         prev = self.model.merged_defaults()
         with ctx.sut(case, "config.update_defaults"):
-            qc.update_defaults(copy.deepcopy(new))
+            arg = copy.deepcopy(new)
+            if self.case_wrap:
+                # update_defaults stores and mutates the top-level object (a dict is required there); the NESTED
+                # sections may be any Mapping
+                arg = {k: as_mapping(v, self.case_wrap) for k, v in arg.items()}
+                self.ctx.count("non_dict_mapping_sections")
+            qc.update_defaults(arg)
         nnew = norm_tree(copy.deepcopy(new))
         self.model.defaults.append(nnew)
 
